@@ -20,7 +20,7 @@ type Seq struct {
 
 	Faulty bool
 	Strict bool
-	Gaps   bool // allow deleting open circuits whose HTLC never reached a commitment
+	Gaps   bool // the mailbox may expire (FailCircuit) and the incoming link delete an open circuit whose HTLC never reached a commitment
 	K      knobs
 
 	nextID       [MaxCh + 1]int // outgoing link's next HTLC id (volatile)
@@ -81,7 +81,7 @@ func RunSeq(r *simcore.Run, faulty, thorough bool) {
 	}
 	s.wc = t.CfgChance(1, 8)
 	s.pg = t.CfgChance(1, 8)
-	s.Gaps = os.Getenv("VERIF_C07_GAPS") == "1"
+	s.Gaps = s.pg || os.Getenv("VERIF_C07_GAPS") == "1"
 	s.W = NewWorld(r, nCh, nIn)
 	s.W.Env.TrimPendingClose = true
 	s.M, s.D = newMState(), newDState()
@@ -94,7 +94,7 @@ func RunSeq(r *simcore.Run, faulty, thorough bool) {
 	} else {
 		r.Arm = "seq/fault-free/" + mode
 	}
-	r.Logf("config: arm=%s nCh=%d nIn=%d pendingCloseUncommitted=%v purgeGap=%v knobs=%+v", r.Arm, nCh, nIn, s.wc, s.pg, s.K)
+	r.Logf("config: arm=%s nCh=%d nIn=%d pendingCloseUncommitted=%v keystoneGaps=%v knobs=%+v", r.Arm, nCh, nIn, s.wc, s.pg, s.K)
 	s.compareState("initial")
 
 	for steps := 0; steps < s.K.maxSteps && r.Step(); steps++ {
@@ -254,7 +254,7 @@ func (s *Seq) step() {
 		for c := 1; c <= w.NCh; c++ {
 			for id := 0; id <= s.nextID[c]+1 && id < MaxOut; id++ {
 				ok := okOf(c, id)
-				if s.Strict && !s.Gaps {
+				if s.Strict {
 					if ik := s.M.openedBy(ok); ik >= 0 && id >= w.Env.Next[c] {
 						continue // the peer cannot answer an HTLC it never saw
 					}
@@ -281,7 +281,12 @@ func (s *Seq) step() {
 				ik := ikOf(ch, id)
 				p := s.M.P[ik]
 				if s.Strict {
-					legal := !p.Present || p.Closed || (p.Out < 0 && s.routed[ik] != 0)
+					// FailCircuit comes from the outgoing mailbox: for an Add
+					// it still holds (never delivered, or - after the link
+					// stopped and ResetPackets - delivered and bound to a
+					// keystone but not yet on a commitment); duplicates.
+					legal := !p.Present || p.Closed || (p.Out < 0 && s.routed[ik] != 0) ||
+						(s.Gaps && p.Out >= 0 && s.routed[ik] != 0 && okID(int(p.Out)) >= w.Env.Next[okCh(int(p.Out))])
 					if !legal {
 						continue
 					}
@@ -317,10 +322,11 @@ func (s *Seq) step() {
 			if p.Present && p.Out >= 0 && !s.Gaps {
 				c := okCh(int(p.Out))
 				if okID(int(p.Out)) >= w.Env.Next[c] {
-					// An open circuit whose HTLC never reached a
-					// commitment cannot have been answered: deleting it
-					// would break the documented "no disjoint segments"
-					// precondition of TrimOpenCircuits.
+					// Deleting an open circuit whose HTLC never reached a
+					// commitment breaks the documented "no disjoint
+					// segments" precondition of TrimOpenCircuits. lnd can do
+					// it (mailbox expiry while the link is down); that
+					// scenario is confined to the keystoneGaps runs.
 					continue
 				}
 			}
@@ -728,21 +734,22 @@ func (s *Seq) restart(fk, k int) {
 	if !sameView(r, got, m.Snapshot(), "after restart") {
 		// Is it one of the two ways in which start-up trimming is known to
 		// fall short of the property's sentence? (named, never accepted)
+		gapSig := "purge-gap"
+		if s.holeOnDisk() {
+			gapSig = "expiry-gap"
+		}
 		for _, v := range []struct {
 			pc, gap bool
 			sig     string
-		}{{false, false, "pending-close"}, {true, true, "purge-gap"}, {false, true, "pending-close+purge-gap"}} {
+		}{{false, false, "pending-close"}, {true, true, gapSig}, {false, true, "pending-close+" + gapSig}} {
 			env2 := w.Env
 			env2.TrimPendingClose, env2.ScanStopsAtGap = v.pc, v.gap
 			if _, m2, _ := Restart(s.D, env2); coreView(got) == coreView(m2.Snapshot()) {
-				if s.Gaps && v.gap {
-					// experiment knob VERIF_C07_GAPS: the hole may have
-					// been made by the caller (DeleteCircuits of an open,
-					// never committed circuit), which the doc comment of
-					// TrimOpenCircuits rules out
-					v.sig = "caller-gap(experiment)"
+				why := untrimmedWhy[strings.TrimPrefix(v.sig, "pending-close+")]
+				if strings.HasPrefix(v.sig, "pending-close+") {
+					why = untrimmedWhy["pending-close"] + "; and " + why
 				}
-				r.FailSig("restart-untrimmed", v.sig, "after the restart a circuit is still open towards an outgoing HTLC that never reached a commitment (%s)\n got:  %s\n want: %s\n env: status=%v next=%v\n disk before: %s", untrimmedWhy[v.sig], got, m.Snapshot(), w.Env.Status[:w.NCh+1], w.Env.Next[:w.NCh+1], func() string { p := Project(s.D); return p.Snapshot() }())
+				r.FailSig("restart-untrimmed", v.sig, "after the restart a circuit is still open towards an outgoing HTLC that never reached a commitment (%s)\n got:  %s\n want: %s\n env: status=%v next=%v\n disk before: %s", why, got, m.Snapshot(), w.Env.Status[:w.NCh+1], w.Env.Next[:w.NCh+1], func() string { p := Project(s.D); return p.Snapshot() }())
 			}
 		}
 		r.Fail("restart-state", "after the restart the lookup API shows\n got:  %s\n want: %s\n env: status=%v next=%v resmsg=%s\n disk before: %s", got, m.Snapshot(), w.Env.Status[:w.NCh+1], w.Env.Next[:w.NCh+1], s.resList(), func() string { p := Project(s.D); return p.Snapshot() }())
@@ -948,8 +955,26 @@ func (s *Seq) trimDefined(c, start int) bool {
 }
 
 var untrimmedWhy = map[string]string{
-	"pending-close":           "its outgoing channel is in the pending-close state - closing transaction confirmed, contracts unresolved - which trimAllOpenCircuits never visits",
-	"purge-gap":               "a lower uncommitted keystone of the same channel belonged to a circuit of a fully closed channel and was purged first, so the forward scan of TrimOpenCircuits stopped at the hole",
-	"pending-close+purge-gap": "both: pending-close outgoing channel and a hole left by the purge of closed channels",
-	"caller-gap(experiment)":  "the keystones at/above NextLocalHtlcIndex were not contiguous, so the forward scan of TrimOpenCircuits stopped at the hole",
+	"pending-close": "its outgoing channel is in the pending-close state - closing transaction confirmed, contracts unresolved - which trimAllOpenCircuits never visits",
+	"purge-gap":     "a lower uncommitted keystone of the same channel belonged to a circuit of a fully closed channel and was purged first, so the forward scan of TrimOpenCircuits stopped at the hole",
+	"expiry-gap":    "a lower uncommitted keystone of the same channel was deleted before (FailCircuit from the mailbox + DeleteCircuits), so the forward scan of TrimOpenCircuits stopped at the hole",
+}
+
+// holeOnDisk: before the restart, some open channel's durable keystones
+// at/above NextLocalHtlcIndex already were not contiguous.
+func (s *Seq) holeOnDisk() bool {
+	for c := 1; c <= s.W.NCh; c++ {
+		n, max := 0, -1
+		start := s.W.Env.Next[c]
+		for id := start; id < MaxOut; id++ {
+			if ik := int(s.D.Ks[okOf(c, id)]); ik >= 0 && s.D.Add[ik] != 0 {
+				n++
+				max = id
+			}
+		}
+		if n > 0 && max != start+n-1 {
+			return true
+		}
+	}
+	return false
 }
